@@ -49,7 +49,6 @@ Ltac main_cases c Hl s H :=
 Ltac realign :=
   try match goal with Hidle : idle _ = [] |- _ => rewrite ?Hidle end;
   try match goal with Hbusy : busy _ = [] |- _ => rewrite ?Hbusy end;
-  try match goal with Hclosed : closed _ = _ |- _ => rewrite ?Hclosed end;
   try match goal with Hsnap : m_snap _ = _ |- _ => rewrite ?Hsnap end.
 
 Ltac worker_cases c Hl s k H :=
